@@ -143,7 +143,9 @@ contract(
 
 ADD_GHOST = dict(PERM)
 ADD_GHOST.update({"posold": "Int->Int", "posnew": "Int->Int",
-                  "lpos_old": "Int->Int", "lpos_new": "Int->Int"})
+                  "lpos_old": "Int->Int", "lpos_new": "Int->Int",
+                  "isnew": "Int->Bool", "srcnew": "Int->Int",
+                  "srcold": "Int->Int"})
 
 contract(
     INS, "OrderedSamples.add_samples", props=["C04", "C03"],
@@ -159,6 +161,8 @@ contract(
     bind_ghost={"perm": "call:OrderedSamples.sort_samples.perm",
                 "perminv": "call:OrderedSamples.sort_samples.perminv",
                 "posold": "inserts[0].posold", "posnew": "inserts[0].posnew",
+                "isnew": "inserts[0].isnew", "srcnew": "inserts[0].srcnew",
+                "srcold": "inserts[0].srcold",
                 "lpos_old": "last_insert.posold",
                 "lpos_new": "last_insert.posnew"},
     may_raise={"RuntimeError": "False"},
@@ -201,6 +205,14 @@ contract(
         f"self.log_likelihood_threshold) and "
         f"forall(i, 0, len({L}), self.samples[{L}[i]]['logL'] >= "
         f"self.log_likelihood_threshold))",
+        # ... and nothing else: every stored pair is an old or a new one,
+        # with explicit inverse maps (C03 carries its per-row invariant
+        # through this clause)
+        "forall(p, 0, len(self.samples), "
+        "(isnew(p) and 0 <= srcnew(p) and srcnew(p) < len(samples) and "
+        "posnew(srcnew(p)) == p) or "
+        "(not isnew(p) and 0 <= srcold(p) and "
+        "srcold(p) < old(len(self.samples)) and posold(srcold(p)) == p))",
     ],
 )
 
